@@ -1216,7 +1216,18 @@ func (c *Client) connOpen(u *base.URL) error {
 					tlsConfig.ServerName = host
 				}
 
-				nconn = tls.Client(nconn, tlsConfig)
+				// perform the handshake now, within the dial timeout.
+				// otherwise it is performed during the first write,
+				// that has no read deadline, and a server that accepts
+				// the connection and stays silent blocks the client forever.
+				tconn := tls.Client(nconn, tlsConfig)
+				err = tconn.HandshakeContext(dialCtx)
+				if err != nil {
+					nconn.Close()
+					return err
+				}
+
+				nconn = tconn
 			}
 		}
 	}
